@@ -376,6 +376,10 @@ class Inliner(object):
     if ex is not None:
       stmts = ex
       inlined.append('<flag>')
+    ex = _unswitch_loops(list(stmts))
+    if ex is not None:
+      stmts = ex
+      inlined.append('<flag>')
     out = []
     for s in stmts:
       out.extend(self._stmt(s, fn, stack, inlined, depth))
@@ -1492,6 +1496,126 @@ def _factory_row(e, module):
   return False
 
 
+def _fold_tests(stmts):
+  """`if True: A else: B` -> A ; `x and True` -> x ; `not False` -> True ... after a mode flag was replaced by a constant"""
+  def fold(e):
+    if isinstance(e, ast.UnaryOp) and isinstance(e.op, ast.Not):
+      v = fold(e.operand)
+      if isinstance(v, ast.Constant) and isinstance(v.value, bool):
+        return ast.copy_location(ast.Constant(value=not v.value), e)
+      e.operand = v
+      return e
+    if isinstance(e, ast.BoolOp):
+      vals = [fold(v) for v in e.values]
+      is_and = isinstance(e.op, ast.And)
+      keep = []
+      for v in vals:
+        if isinstance(v, ast.Constant) and isinstance(v.value, bool):
+          if v.value != is_and:
+            return ast.copy_location(ast.Constant(value=not is_and), e)      # False in an `and` / True in an `or`
+          continue
+        keep.append(v)
+      if not keep:
+        return ast.copy_location(ast.Constant(value=is_and), e)
+      if len(keep) == 1:
+        return keep[0]
+      e.values = keep
+      return e
+    return e
+  out = []
+  for st in stmts:
+    for field in ('body', 'orelse', 'finalbody'):
+      if isinstance(getattr(st, field, None), list) and not isinstance(st, (ast.FunctionDef, ast.AsyncFunctionDef, ast.ClassDef)):
+        setattr(st, field, _fold_tests(getattr(st, field)))
+    if isinstance(st, ast.Try):
+      for h in st.handlers:
+        h.body = _fold_tests(h.body)
+    if isinstance(st, (ast.If, ast.While)):
+      st.test = fold(st.test)
+    if isinstance(st, ast.If) and isinstance(st.test, ast.Constant) and isinstance(st.test.value, bool):
+      out.extend(st.body if st.test.value else st.orelse)
+      continue
+    if isinstance(st, (ast.For, ast.While, ast.If, ast.With, ast.Try)) and not st.body:
+      st.body = [ast.copy_location(ast.Pass(), st)]
+    out.append(st)
+  return out
+
+
+def _unswitch_loops(block):
+  """mode = <expr>                             mode = <expr>
+     for x in xs:                              if mode:  for x in xs: <body with mode := True, tests folded>
+       if mode: A else: B          ->          else:     for x in xs: <body with mode := False, tests folded>
+  for a local that is assigned once, before the loop, and only read as a truth value inside it (never assigned there):
+  the two modes of a fused loop are analysed as the two loops they are."""
+  changed = False
+  out = list(block)
+  i = 0
+  while i < len(out):
+    lp = out[i]
+    if not isinstance(lp, (ast.For, ast.While)) or lp.orelse:
+      i += 1
+      continue
+    stored_in = {x.id for x in ast.walk(lp) if isinstance(x, ast.Name) and isinstance(x.ctx, (ast.Store, ast.Del))}
+    tested = {}
+    for x in ast.walk(lp):
+      if isinstance(x, ast.If):
+        for y in ast.walk(x.test):
+          if isinstance(y, ast.Name) and isinstance(y.ctx, ast.Load):
+            tested[y.id] = tested.get(y.id, 0) + 1
+    flag = None
+    for name, cnt in tested.items():
+      if name in stored_in or cnt < 2:
+        continue
+      defs = [st for st in out[:i] if isinstance(st, ast.Assign) and len(st.targets) == 1 and isinstance(st.targets[0], ast.Name) and
+              st.targets[0].id == name]
+      all_stores = sum(1 for st in out for x in ast.walk(st) if isinstance(x, ast.Name) and x.id == name and isinstance(x.ctx, ast.Store))
+      if len(defs) != 1 or all_stores != 1:
+        continue
+      # read only as a truth value (operand of if / and / or / not) inside the loop
+      ok = True
+      for x in ast.walk(lp):
+        if isinstance(x, ast.Name) and x.id == name and isinstance(x.ctx, ast.Load):
+          ok = ok and _truth_position(lp, x)
+      if ok:
+        flag = name
+        break
+    if flag is None or sum(1 for x in ast.walk(lp) if isinstance(x, ast.stmt)) > 40:
+      i += 1
+      continue
+    arms = []
+    for val in (True, False):
+      cp = _clone(lp)
+
+      class S(ast.NodeTransformer):
+        def visit_Name(self, n):
+          if n.id == flag and isinstance(n.ctx, ast.Load):
+            return ast.copy_location(ast.Constant(value=val), n)
+          return n
+      cp = S().visit(cp)
+      arms.append(_fold_tests([cp]))
+    new = ast.If(test=ast.Name(id=flag, ctx=ast.Load()), body=arms[0], orelse=arms[1])
+    ast.copy_location(new, lp)
+    ast.copy_location(new.test, lp)
+    ast.fix_missing_locations(new)
+    out[i] = new
+    changed = True
+    i += 1
+  return out if changed else None
+
+
+def _truth_position(root, name_node):
+  """the Name occurrence is used only for its truth value: it is an if/while test or an operand of and/or/not in one"""
+  parents = {}
+  for p in ast.walk(root):
+    for c in ast.iter_child_nodes(p):
+      parents[id(c)] = p
+  n = name_node
+  p = parents.get(id(n))
+  while isinstance(p, (ast.BoolOp, ast.UnaryOp)) and (isinstance(p, ast.BoolOp) or isinstance(p.op, ast.Not)):
+    n, p = p, parents.get(id(p))
+  return isinstance(p, (ast.If, ast.While)) and p.test is n
+
+
 _FORM_K = [0]
 
 
@@ -2187,6 +2311,19 @@ def _tailify(stmts, ret):
         if oe is None:
           return None
         out.append(ast.copy_location(ast.Try(body=s.body, handlers=hs, orelse=oe, finalbody=[]), s))
+        return out
+      if not body_falls and falls and not s.orelse and not s.finalbody and _count_stmts(rest) <= MAX_DUP:
+        # try: ...; return X / except E: <log>   followed by rest   ==   try: ...; return X / except E: <log>; rest
+        b = _tailify(s.body, ret)
+        hs = []
+        for h in s.handlers:
+          hb = _tailify(list(h.body) + ([_clone(x) for x in rest] if not _always_returns(h.body) else []), ret)
+          if hb is None:
+            return None
+          hs.append(ast.copy_location(ast.ExceptHandler(type=h.type, name=h.name, body=hb), h))
+        if b is None:
+          return None
+        out.append(ast.copy_location(ast.Try(body=b, handlers=hs, orelse=[], finalbody=[]), s))
         return out
       return None
     if isinstance(s, (ast.For, ast.While)) and _has_return([s]):
